@@ -45,7 +45,11 @@ struct Cmp : dv::Typed<int, Cmp> {
 		auto bit = [](bool x) { return x ? '1' : '0'; };
 		std::string s = "view=";
 		s += bit(a == b); s += bit(a != b); s += bit(a < b); s += bit(a <= b); s += bit(a > b);
+#ifdef C07_HAS_GE
+		s += bit(a >= b);
+#else
 		if constexpr(D == 1) { s += bit(a >= b); } else { s += '-'; }
+#endif
 		multi::array<int, D> A(a);
 		multi::array<int, D> B(b);
 		s += " array=";
